@@ -45,3 +45,91 @@ package mint
 //@   ensures @distinct [C01] err == nil ==> (forall i, j :: 0 <= i && i < j && j < len(proofs) ==> Yof(proofs[i].Secret) != Yof(proofs[j].Secret))
 //@   ensures @monotone [C01] forall y Str :: old(db.spent)[y] ==> db.spent[y]
 //@   ensures @sigsaved [C15] err == nil ==> (forall i :: 0 <= i && i < len(blindedMessages) ==> db.sig[blindedMessages[i].B_])
+
+//@ func (*Mint).GetMintQuoteState
+//@   tags C03
+//@   safety C06
+//@   requires minv(m)
+//@   calls (storage.MintDB).UpdateMintQuoteState asserts @unpaid2paid [C03] db.mq[quoteId] && db.mqrow[quoteId].State == nut04.Unpaid && state == nut04.Paid
+//@   ensures @state [C03] err == nil ==> db.mq[quoteId] && result == db.mqrow[quoteId] && result.Id == quoteId
+//@   ensures @frame [C03] forall q Str :: q != quoteId ==> db.mqrow[q] == old(db.mqrow)[q]
+//@   ensures @transition [C03] db.mqrow[quoteId] == old(db.mqrow)[quoteId] || (old(db.mqrow)[quoteId].State == nut04.Unpaid && db.mqrow[quoteId] == setfield(old(db.mqrow)[quoteId], "State", nut04.Paid))
+
+//@ func (*Mint).MintTokens
+//@   tags C03
+//@   safety C06
+//@   requires minv(m)
+//@   loop $1:range(blindedMessages) invariant 0 <= i && i <= len(blindedMessages) && len(B_s) == len(blindedMessages) && (forall j :: 0 <= j && j < i ==> B_s[j] == blindedMessages[j].B_)
+//@   ensures @paidbefore [C03] err == nil && result != nil ==> old(db.mq)[mintTokensRequest.Quote] && (old(db.mqrow)[mintTokensRequest.Quote].State == nut04.Paid || old(db.mqrow)[mintTokensRequest.Quote].State == nut04.Unpaid)
+//@   ensures @issuedafter [C03] err == nil && result != nil ==> db.mqrow[mintTokensRequest.Quote].State == nut04.Issued
+//@   ensures @onceonly [C03] old(db.mq)[mintTokensRequest.Quote] && old(db.mqrow)[mintTokensRequest.Quote].State == nut04.Issued ==> err != nil
+//@   ensures @amount [C02,C03] err == nil ==> sum.sig.amount(seq(result), len(result)) <= old(db.mqrow)[mintTokensRequest.Quote].Amount
+//@   ensures @sigsaved [C15] err == nil && result != nil ==> (forall i :: 0 <= i && i < len(mintTokensRequest.Outputs) ==> db.sig[mintTokensRequest.Outputs[i].B_])
+//@   ensures @otherquotes [C03] forall x Str :: x != mintTokensRequest.Quote ==> db.mqrow[x] == old(db.mqrow)[x]
+//@   ensures @revert [C06] err != nil && db.faults == old(db.faults) ==> db.mqrow[mintTokensRequest.Quote].State == old(db.mqrow)[mintTokensRequest.Quote].State || (old(db.mqrow)[mintTokensRequest.Quote].State == nut04.Unpaid && db.mqrow[mintTokensRequest.Quote].State == nut04.Paid)
+//@   ensures @nosigonerr [C06] err != nil && db.faults == old(db.faults) ==> db.sig == old(db.sig)
+
+//@ macro ysof(Ys, proofs) = len(Ys) == len(proofs) && (forall i :: 0 <= i && i < len(proofs) ==> Ys[i] == Yof(proofs[i].Secret))
+
+//@ func (*Mint).settleProofs
+//@   tags C01 C05
+//@   safety C06
+//@   requires minv(m)
+//@   requires ysof(Ys, proofs)
+//@   ensures @spent [C01,C05] err == nil ==> (forall i :: 0 <= i && i < len(proofs) ==> db.spent[Ys[i]] && !db.pending[Ys[i]])
+//@   ensures @monotone [C01] forall y Str :: old(db.spent)[y] ==> db.spent[y]
+//@   ensures @others [C05] forall y Str :: (forall i :: 0 <= i && i < len(Ys) ==> Ys[i] != y) ==> db.pending[y] == old(db.pending)[y] && db.spent[y] == old(db.spent)[y]
+//@   ensures @failkeeps [C05] err != nil ==> db.spent == old(db.spent)
+//@   ensures @errisfault [C06] err != nil && (forall i :: 0 <= i && i < len(Ys) ==> !old(db.spent)[Ys[i]]) && (forall i, j :: 0 <= i && i < j && j < len(Ys) ==> Ys[i] != Ys[j]) ==> db.faults > old(db.faults)
+
+//@ func (*Mint).removePendingProofsForQuote
+//@   tags C05
+//@   safety C06
+//@   requires minv(m)
+//@   loop range(dbproofs) invariant 0 <= i && i <= len(dbproofs) && len(Ys) == len(dbproofs) && len(proofs) == len(dbproofs) && (forall j :: 0 <= j && j < i ==> Ys[j] == dbproofs[j].Y && proofs[j].Secret == dbproofs[j].Secret && proofs[j].Amount == dbproofs[j].Amount && proofs[j].Id == dbproofs[j].Id && proofs[j].C == dbproofs[j].C && proofs[j].Witness == dbproofs[j].Witness)
+//@   ensures @removed [C05] err == nil ==> (forall y Str :: db.pending[y] <==> (old(db.pending)[y] && old(db.pendrow)[y].MeltQuoteId != quoteId))
+//@   ensures @returned [C05] err == nil ==> (forall j :: 0 <= j && j < len(result) ==> old(db.pending)[Yof(result[j].Secret)] && old(db.pendrow)[Yof(result[j].Secret)].MeltQuoteId == quoteId)
+//@   ensures @complete [C05] err == nil ==> (forall y Str :: old(db.pending)[y] && old(db.pendrow)[y].MeltQuoteId == quoteId ==> (exists j :: 0 <= j && j < len(result) && Yof(result[j].Secret) == y))
+//@   ensures @distinct [C05] err == nil ==> (forall i, j :: 0 <= i && i < j && j < len(result) ==> Yof(result[i].Secret) != Yof(result[j].Secret))
+//@   ensures @failkeeps [C05] err != nil ==> db.pending == old(db.pending)
+
+//@ func (*Mint).settleQuotesInternally
+//@   tags C02 C03 C05
+//@   safety C06
+//@   requires minv(m)
+//@   requires db.melt[meltQuote.Id] && db.meltrow[meltQuote.Id].State == nut05.Pending
+//@   requires db.mq[mintQuote.Id] && mintinv(db.mqrow[mintQuote.Id])
+//@   ensures @result [C05] err == nil ==> result == setfield(setfield(meltQuote, "State", nut05.Paid), "Preimage", result.Preimage)
+//@   ensures @meltrow [C05] err == nil ==> db.meltrow == upd(old(db.meltrow), meltQuote.Id, setfield(setfield(old(db.meltrow)[meltQuote.Id], "State", nut05.Paid), "Preimage", result.Preimage))
+//@   ensures @mintrow [C03] err == nil ==> db.mqrow == upd(old(db.mqrow), mintQuote.Id, setfield(old(db.mqrow)[mintQuote.Id], "State", nut04.Paid))
+//@   ensures @nofaultnoerr [C06] err != nil ==> db.faults > old(db.faults) || ln.qfaults > old(ln.qfaults)
+//@   ensures @otherquotes [C05] forall x Str :: x != meltQuote.Id ==> db.meltrow[x] == old(db.meltrow)[x]
+
+//@ macro notfound(e) = err.is(e, lightning.OutgoingPaymentNotFound) || grpc.code(e) == 5
+//@ macro payfailed() = ln.payerr != nil || ln.pay.PaymentStatus == lightning.Failed
+
+//@ func (*Mint).MeltTokens
+//@   tags C05
+//@   safety C06
+//@   requires minv(m)
+//@   loop range(proofs) invariant 0 <= i && i <= len(proofs) && len(Ys) == len(proofs) && proofsAmount == sum.proof.amount(seq(proofs), i) % 18446744073709551616 && (forall j :: 0 <= j && j < i ==> Ys[j] == Yof(proofs[j].Secret))
+//@   calls (lightning.Client).SendPayment asserts @feelimit [C02] maxFee <= db.meltrow[meltTokensRequest.Quote].FeeReserve && request == db.meltrow[meltTokensRequest.Quote].InvoiceRequest
+//@   calls (lightning.Client).PayPartialAmount asserts @feelimit [C02] maxFee <= db.meltrow[meltTokensRequest.Quote].FeeReserve && request == db.meltrow[meltTokensRequest.Quote].InvoiceRequest && amountMsat == db.meltrow[meltTokensRequest.Quote].AmountMsat
+//@   calls (storage.MintDB).AddPendingProofs asserts @burn [C02] sum.proof.amount(seq(ps), len(ps)) >= db.meltrow[meltTokensRequest.Quote].Amount + db.meltrow[meltTokensRequest.Quote].FeeReserve + fee.tx(seq(ps), mapkeys(m.keysets), mapvals(m.keysets), len(ps)) && ps == meltTokensRequest.Inputs && quoteId == meltTokensRequest.Quote
+//@   calls (lightning.Client).SendPayment asserts @lockedfirst [C01,C05,C07] (forall i :: 0 <= i && i < len(meltTokensRequest.Inputs) ==> db.pending[Yof(meltTokensRequest.Inputs[i].Secret)]) && db.meltrow[meltTokensRequest.Quote].State == nut05.Pending
+//@   calls (lightning.Client).PayPartialAmount asserts @lockedfirst [C01,C05,C07] (forall i :: 0 <= i && i < len(meltTokensRequest.Inputs) ==> db.pending[Yof(meltTokensRequest.Inputs[i].Secret)]) && db.meltrow[meltTokensRequest.Quote].State == nut05.Pending
+//@   ensures @states [C05] err == nil ==> result.State == nut05.Paid || result.State == nut05.Unpaid || result.State == nut05.Pending
+//@   ensures @stored [C05] err == nil ==> db.melt[meltTokensRequest.Quote] && db.meltrow[meltTokensRequest.Quote].State == result.State && db.meltrow[meltTokensRequest.Quote].Preimage == result.Preimage
+//@   ensures @paid [C05] err == nil && result.State == nut05.Paid && ln.npay == old(ln.npay) + 1 ==> (ln.payerr == nil && ln.pay.PaymentStatus == lightning.Succeeded && result.Preimage == ln.pay.Preimage) || (payfailed() && ln.nst == old(ln.nst) + 1 && ln.sterr == nil && ln.st.PaymentStatus == lightning.Succeeded && result.Preimage == ln.st.Preimage)
+//@   ensures @paidspent [C01,C05,C15] err == nil && result.State == nut05.Paid ==> (forall i :: 0 <= i && i < len(meltTokensRequest.Inputs) ==> db.spent[Yof(meltTokensRequest.Inputs[i].Secret)] && !db.pending[Yof(meltTokensRequest.Inputs[i].Secret)])
+//@   ensures @unpaid [C05] err == nil && result.State == nut05.Unpaid ==> ln.npay == old(ln.npay) + 1 && payfailed() && ln.nst == old(ln.nst) + 1 && (notfound(ln.sterr) || (ln.sterr == nil && ln.st.PaymentStatus == lightning.Failed))
+//@   ensures @unpaidfree [C05] err == nil && result.State == nut05.Unpaid ==> (forall i :: 0 <= i && i < len(meltTokensRequest.Inputs) ==> !db.spent[Yof(meltTokensRequest.Inputs[i].Secret)] && !db.pending[Yof(meltTokensRequest.Inputs[i].Secret)])
+//@   ensures @pendinglocked [C01,C05] err == nil && result.State == nut05.Pending ==> (forall i :: 0 <= i && i < len(meltTokensRequest.Inputs) ==> db.pending[Yof(meltTokensRequest.Inputs[i].Secret)] && !db.spent[Yof(meltTokensRequest.Inputs[i].Secret)])
+//@   ensures @freshinputs [C01] err == nil ==> len(meltTokensRequest.Inputs) >= 1 && (forall i :: 0 <= i && i < len(meltTokensRequest.Inputs) ==> !old(db.spent)[Yof(meltTokensRequest.Inputs[i].Secret)] && !old(db.pending)[Yof(meltTokensRequest.Inputs[i].Secret)])
+//@   ensures @distinct [C01] err == nil ==> (forall i, j :: 0 <= i && i < j && j < len(meltTokensRequest.Inputs) ==> Yof(meltTokensRequest.Inputs[i].Secret) != Yof(meltTokensRequest.Inputs[j].Secret))
+//@   ensures @unpaidbefore [C05] err == nil ==> old(db.melt)[meltTokensRequest.Quote] && old(db.meltrow)[meltTokensRequest.Quote].State == nut05.Unpaid
+//@   ensures @monotone [C01] forall y Str :: old(db.spent)[y] ==> db.spent[y]
+//@   ensures @otherquotes [C05] forall x Str :: x != meltTokensRequest.Quote ==> db.meltrow[x] == old(db.meltrow)[x]
+//@   ensures @otherproofs [C01,C05] forall y Str :: (forall i :: 0 <= i && i < len(meltTokensRequest.Inputs) ==> Yof(meltTokensRequest.Inputs[i].Secret) != y) ==> db.pending[y] == old(db.pending)[y] && db.spent[y] == old(db.spent)[y]
+//@   ensures @atomic [C06] err != nil && db.faults == old(db.faults) && ln.qfaults == old(ln.qfaults) ==> db.pending == old(db.pending) && db.spent == old(db.spent) && db.meltrow == old(db.meltrow) && db.mqrow == old(db.mqrow) && ln.npay == old(ln.npay)
+//@   ensures @internal [C02,C03] err == nil && result.State == nut05.Paid && ln.npay == old(ln.npay) ==> (exists x Str :: old(db.mq)[x] && old(db.mqrow)[x].PaymentHash == old(db.meltrow)[meltTokensRequest.Quote].PaymentHash && db.mqrow[x].State == nut04.Paid)
